@@ -120,6 +120,20 @@ func (c *Compiler) Code() *Code {
 
 // Compile the given AST node and return the compiled code object.
 func (c *Compiler) Compile(node ast.Node) (*Code, error) {
+	// The same compiler may be used again after an error (this is what the REPL
+	// does), so input that is rejected must leave no trace: remember the state
+	// of the main code and restore it if compilation fails.
+	mark := c.main.mark()
+	code, err := c.compileInput(node)
+	if err != nil {
+		c.current = c.main
+		c.main.rollback(mark)
+		return nil, err
+	}
+	return code, nil
+}
+
+func (c *Compiler) compileInput(node ast.Node) (*Code, error) {
 	c.failure = nil
 	if c.main.source == "" {
 		c.main.source = node.String()
